@@ -473,18 +473,22 @@ def fresh_maps_and_second_bindings(rec, rng):
             return (type(e).__name__,)
 
     # (a)
-    for variant in range(4):
+    for variant in range(6):
         good = [lambda: Rule("/old/<int:id>", endpoint="item", alias=True), lambda: Rule("/item/<int:id>", endpoint="item"), lambda: Rule("/<int:id>", endpoint="item_short", defaults=None),
                 lambda: Rule("/<name>/", endpoint="profile"), lambda: Rule("/list/<int:page>", endpoint="list"), lambda: Rule("/list/", endpoint="list", defaults={"page": 1})]
         order = list(range(len(good)))
-        if variant % 2:
+        if variant % 2 or variant == 4:
             rng.shuffle(order)
         m = Map()
         arrived = []
-        ahead = 0 if variant < 2 else 3  # with 0 the failing factory is the only thing the map was ever given
+        ahead = 0 if variant < 2 else (3 if variant < 5 else 1)  # with 0 the failing factory is the only thing the map was ever given
+        in_use = variant in (3, 4, 5)  # ... or the map has already answered requests when the failing factory comes
         for i in order[:ahead]:
             m.add(good[i]())
             arrived.append(i)
+        if in_use:
+            outcome(m.bind("example.com", "/"), "/warm/up")
+            rec.observe("maps_in_use_with_a_failed_add")
         try:
             m.add(Submount("", [good[i]() for i in order[ahead:]] + [Rule("/x/<nosuchconverter:y>", endpoint="x")]))
             rec.observe("faulty_factory_did_not_fail")
